@@ -695,10 +695,13 @@ impl AST {
                     ops.push(Op::Render, pos);
                 }
             }
-            TemplatePart::Expression(expr) => {
+            TemplatePart::Expression(mut expr) => {
                 if place_holder {
                     unreachable!();
                 } else {
+                    // This expression was parsed out of the template only now, after the
+                    // statements of the file had their import and include paths rewritten.
+                    Rewriter::new(root).walk_expression(&mut expr);
                     Self::translate_expr(expr, ops, root);
                     ops.push(Op::Render, pos);
                 }
